@@ -218,11 +218,25 @@ def ext_cases(seed, tier, consts, pid):
 def conv_gd(x):
     """cases of props.gen_conv_cases: block 0 = retval (8 bytes), 1 = dest, 2 = src [, 3 = src pointer, 4 = state]"""
     m = x.meta
-    if m.get('kind') == 'query' or 'objelems' not in m: return None
+    if m.get('kind') in ('query', 'seq') or 'objelems' not in m: return None
     wide = m['op'] in ('mbstowcs', 'mbsrtowcs'); w = 4 if wide else 1
     single = m['op'] in ('wcrtomb', 'wctomb')
     wr = [(0, 0, 8)] + ([(3, 0, 8), (4, 0, 8)] if m['op'] in ('mbsrtowcs', 'wcsrtombs') else []) + ([(2, 0, 16)] if m['op'] == 'wcrtomb' else [])
-    g = gd(1, 0, m['dmax'], w, producer=not single, slack=True, fail='ret', writable=wr, copylike=True,
+    ref = None
+    if not single and m.get('valid') and m.get('kind') == 'ok':
+        # what the standard function delivers limited to len (whole characters only); it must fit dmax together with the terminator
+        s_ = m['chars']
+        if wide: deliver = list(s_[:m['len']])
+        else:
+            deliver = []
+            for c in s_:
+                e = list(chr(c).encode('utf-8'))
+                if len(deliver) + len(e) > m['len']: break
+                deliver += e
+        if len(deliver) < m['dmax']:
+            ref = ('ok', deliver + [0], None) if not (m['op'] in ('wcstombs', 'wcsrtombs') and len(deliver) == 0) else None    # the empty result of wcstombs_s is a known C15 finding
+        else: ref = ('fail',)
+    g = gd(1, 0, m['dmax'], w, producer=not single, slack=True, fail='ret', writable=wr, copylike=True, ref=ref,
            readonly=([] if single else [(2, 0, len(x.blocks[2][1]))]))
     return g
 
